@@ -54,4 +54,29 @@ PROPS = {
         ],
         "assumptions": ["HashSet is a correct set for lawful Hash/Eq (C06/C07)"],
     },
+    "C06": {
+        "props": ["Props/C06.v"],
+        "run": ["Run/TermRun.v"],
+        "tables": ["T4"],
+        "n_quick": 500,
+        "n_thorough": 8000,
+        "trusted_base": TB_COMMON + [
+            "std::collections::HashSet is a correct set for lawful Hash/Eq: `==` is same length + every left element contained in the right; insert keeps the first of two equal elements (modelled, not verified)",
+            "hand-written term_eqb skeleton in Model/EqHash.v; per-constructor eq kinds regenerated from `impl PartialEq for Term`",
+        ],
+        "assumptions": ["set payloads are duplicate-free up to == (set_ok), re-checked by the model on every implementation value the harness produces"],
+    },
+    "C07": {
+        "props": ["Props/C07.v"],
+        "run": ["Run/TermRun.v"],
+        "tables": ["T4"],
+        "n_quick": 500,
+        "n_thorough": 8000,
+        "trusted_base": TB_COMMON + [
+            "the hasher is abstract: term_feed is the sequence of writes of `impl Hash`; fixed_hash (DefaultHasher::new() over an element) is an arbitrary function (Section variable), instantiated by an oracle table of real DefaultHasher values in the correspondence",
+            "std Hash for String (write bytes + 0xff) and usize (write_usize) as recorded by a recording Hasher",
+            "per-constructor hash kinds regenerated from `impl Hash for Term`, bodies of hash_term_set / hash_unordered recognised verbatim",
+        ],
+        "assumptions": ["any std hasher is a function of the write stream"],
+    },
 }
